@@ -38,7 +38,7 @@ def fancy_text(logic, t, r):
     """Like text_of but with operator synonyms (~ | &), irregular blanks and
     redundant parentheses around atoms; registers the tree it denotes."""
     def ws():
-        return r.choice([' ', ' ', '  ', '\t', ' \n '])
+        return r.choice([' ', ' ', '  ', '\t', ' \n ', '\r\n', ' \f '])
 
     def rec(t):
         op = t[0]
